@@ -434,9 +434,8 @@ def impl(fn, *a, **kw):
 def lib_single(tmp, data, key_name, kid, alg, ctx, action, name="lib"):
     """cmd_sign.main(single-level) in this process: the output file's bytes (None if no file was written), or the exception."""
     from suit_generator.suit_sign_script_base import SignatureAlreadyPresentActions, SuitSignAlgorithms
-    fi, fo = os.path.join(tmp, name + "-in.suit"), os.path.join(tmp, name + "-out.suit")
-    with open(fi, "wb") as fh:
-        fh.write(data)
+    fo = os.path.join(tmp, name + "-out.suit")
+    fi = core.tricky_file(tmp, name + "-in.suit", data)       # named through a linked directory and back
     with open(fo, "wb") as fh:
         fh.write(STALE)
     os.utime(fo, (time.time() + 3600, time.time() + 3600))
